@@ -230,6 +230,48 @@ def run(model, sc, entry='main', max_paths=8):
             return is_dir if which == 'is_dir' else (not en.attrs['_dir'])
         return h
 
+    def h_glob(I, e, args, kw, env):
+        """glob.glob / iglob over the files and directories of the scenario (component-wise fnmatch, dot files only for a leading dot)."""
+        import fnmatch
+        import glob as _glob
+        pattern = args[0] if args else kw.get('pathname')
+        if not isinstance(pattern, str) or kw.get('root_dir') is not None:
+            return TOP
+        recursive = bool(kw.get('recursive', False))
+        trace.append(('glob', pattern))
+        known = set(sc.files) | set(sc.dangling)
+        for top, levels in sc.dirs.items():
+            for (root, dirs, files, _via) in levels:
+                known.add(root)
+                known.update(os.path.join(root, n) for n in list(dirs) + list(files))
+        if not _glob.has_magic(pattern):
+            return [pattern] if pattern in known else []
+        want = pattern.split('/')
+        out = []
+        for path in sorted(known):
+            have = path.split('/')
+
+            def match(wi, hi):
+                if wi == len(want):
+                    return hi == len(have)
+                w = want[wi]
+                if recursive and w == '**':
+                    return any(match(wi + 1, k) for k in range(hi, len(have) + 1) if not any(h.startswith('.') for h in have[hi:k]))
+                if hi >= len(have):
+                    return False
+                h = have[hi]
+                if _glob.has_magic(w):
+                    if h.startswith('.') and not w.startswith('.'):
+                        return False
+                    if not fnmatch.fnmatchcase(h, w):
+                        return False
+                elif h != w:
+                    return False
+                return match(wi + 1, hi + 1)
+            if match(0, 0):
+                out.append(path)
+        return out
+
     def h_join(I, e, args, kw, env):
         if any(a is TOP or isinstance(a, Obj) for a in args):
             return TOP
@@ -316,6 +358,7 @@ def run(model, sc, entry='main', max_paths=8):
         'sys.stdout.buffer.write': h_stdout_bytes, 'sys.stdout.write': h_stdout_text, 'sys.stderr.write': h_stderr, 'print': h_stdout_text,
         'os.path.isdir': h_isdir, 'os.path.isfile': h_isfile, 'os.path.exists': h_exists, 'os.walk': h_walk, 'os.path.join': h_join,
         'os.environ.get': h_environ_get, 'os.getenv': h_environ_get,
+        'glob.glob': h_glob, 'glob.iglob': h_glob, 'glob': h_glob, 'iglob': h_glob,
         'os.scandir': h_scandir, 'os.listdir': h_listdir, '.is_dir': entry_method('is_dir'), '.is_file': entry_method('is_file'), '.is_symlink': entry_method('is_symlink'),
         'os.path.islink': lambda I, e, args, kw, env: args[0] in sc.dangling,
         'os.path.lexists': lambda I, e, args, kw, env: args[0] in sc.files or args[0] in sc.dirs or args[0] in sc.dangling,
